@@ -23,7 +23,7 @@ CLAIMED = {
              'all three squash_time settings.',
         note=NOTE),
     'C17': dict(
-        technique='Coq proof (loop invariant over the column-by-column greedy assignment, for every query table) + differential correspondence on injected and real K-NN tables',
+        technique='Coq proof (loop invariant over the column-by-column greedy assignment, for every query table) + differential correspondence on injected and real K-NN tables + TRANSLATION TIE (Prop_Tie_Kdt.v): the bodies of kdt_match and _unique_inds are regenerated from the source on every run by a fail-closed ast translator and machine-checked refinement theorems show the hand model computes exactly what the translated program computes for every oracle behaviour',
         text='Theorems (Prop_C17.v) prove for EVERY neighbour table (D, inds), K and ny that the returned pair list has no x row and no '
              'y row twice, all indices in range, every matched y among the K candidates of its x, and within the bound under the '
              'query contract. The cKDTree query is an oracle. Correspondence replays injected tables through the real loop and '
@@ -39,7 +39,7 @@ CLAIMED = {
              'after each step, results compared byte-for-byte to a reference.',
         note=NOTE),
     'C12': dict(
-        technique='Coq proof over a Gallina model of get_cycle_vector + exhaustive differential correspondence (all phase sequences up to length 6/8 over a 5-value alphabet)',
+        technique='Coq proof over a Gallina model of get_cycle_vector + exhaustive differential correspondence (all phase sequences up to length 6/8 over a 5-value alphabet) + TRANSLATION TIE (Prop_Tie_Cycles.v): the bodies of get_cycle_vector and is_good are regenerated from the source on every run by a fail-closed ast translator and machine-checked refinement theorems show the hand model computes exactly what the translated program computes for every oracle behaviour',
         text='Theorems (Prop_C12.v, closed under the global context) prove for every phase list, threshold set, mask and mode that '
              'detection is total, labels are exactly 0..K-1 in temporal order, each label is one contiguous run without an internal '
              'wrap that begins/ends at a wrap or a recording end, everything else is -1, and all-cycles mode covers every sample '
@@ -48,7 +48,7 @@ CLAIMED = {
              'implementation output itself.',
         note=NOTE),
     'C13': dict(
-        technique='Coq proof over a Gallina model of is_good / get_cycle_vector / the container flag + exhaustive differential correspondence',
+        technique='Coq proof over a Gallina model of is_good / get_cycle_vector / the container flag + exhaustive differential correspondence + TRANSLATION TIE (Prop_Tie_Cycles.v): the bodies of get_cycle_vector and is_good are regenerated from the source on every run by a fail-closed ast translator and machine-checked refinement theorems show the hand model computes exactly what the translated program computes for every oracle behaviour',
         text='Theorems (Prop_C13.v) prove that a wrap-delimited segment is labelled iff it meets the four criteria (monotone, start '
              'edge, end edge, mask), that good cycles are an order-preserving renumbering (get_subset_vector of a selection) of the '
              'all-cycles partition, and that the container flag agrees with the same criteria. Correspondence over the same '
@@ -74,7 +74,7 @@ CLAIMED = {
 }
 
 CLAIMED['C05'] = dict(
-    technique='Coq proof over a Gallina model of _find_extrema / np.pad odd reflection / the re-padding loop / the envelope sample grid + exhaustive differential correspondence (every sequence up to length 7/9 over 3 levels x pad widths 0..5 x 3 modes)',
+    technique='Coq proof over a Gallina model of _find_extrema / np.pad odd reflection / the re-padding loop / the envelope sample grid + exhaustive differential correspondence (every sequence up to length 7/9 over 3 levels x pad widths 0..5 x 3 modes) + TRANSLATION TIE (Prop_Tie_Extrema.v): the bodies of get_padded_extrema, interp_envelope and _find_extrema are regenerated from the source on every run by a fail-closed ast translator and machine-checked refinement theorems show the hand model computes exactly what the translated program computes for every oracle behaviour',
     text='Theorems (Prop_C05.v) prove for every integer signal that detected peaks/troughs are exactly the strict interior local maxima/minima in temporal '
          'order with the signal\'s own magnitudes, that fewer than two extrema give no envelope, that the re-padding loop terminates, that padding only '
          'adds mirrored (odd-reflected) extrema beyond both ends leaving the interior ones unaltered, strictly ordered in time and covering both edges '
@@ -87,7 +87,7 @@ CLAIMED['C05'] = dict(
     note=NOTE + ' np.pad and argrelextrema are modelled concretely and validated exhaustively; spline/PCHIP evaluation is an oracle.')
 
 CLAIMED['C04'] = dict(
-    technique='Coq proof over an abstract-oracle model of the extraction loop (any signal type, any envelope / stopping oracle, any limit) + exhaustive scripted correspondence of the real get_next_imf control flow + bit-exact toy-envelope runs + trace conformance on real numerics + TRANSLATION TIE: the control skeleton of get_next_imf / sift / mask_sift is regenerated from emd/sift.py on every run by a fail-closed ast translator and machine-checked refinement theorems (Prop_Tie_Sift.v) show the hand model computes exactly what the translated program computes, for all oracles and fuel',
+    technique='Coq proof over an abstract-oracle model of the extraction loop (any signal type, any envelope / stopping oracle, any limit) + exhaustive scripted correspondence of the real get_next_imf control flow + bit-exact toy-envelope runs + trace conformance on real numerics + TRANSLATION TIE: the control skeleton of get_next_imf / sift / mask_sift is regenerated from emd/sift.py on every run by a fail-closed ast translator and machine-checked refinement theorems (Prop_Tie_Sift.v) show the hand model computes exactly what the translated program computes, for all oracles and fuel + SECOND TRANSLATION TIE (Prop_Tie_Stops.v): the bodies of sd_stop, rilling_stop, fixed_stop, energy_stop, _energy_difference, zero_crossing_count (formulas as compositions of numpy primitives over exact rationals with inf/nan) are regenerated from the source on every run by a fail-closed ast translator and machine-checked refinement theorems show the hand model computes exactly what the translated program computes for every oracle behaviour',
     text='Theorems (Prop_C04.v) prove for EVERY signal type, envelope oracle, stopping oracle, step operator and iteration limit that the result of '
          'get_next_imf is exactly one of: the FIRST iterate x_k (x_0 = X, x_{k+1} = x_k - step*mean envelope) at which the rule fires with its full '
          'envelope mean removed (the n-th for a fixed count n), the first iterate left without envelopes (flagged final iff it is the unmodified '
@@ -145,7 +145,7 @@ CLAIMED['C15'] = dict(
          'after every step, exactly.',
     note=NOTE + ' The pandas DataFrame is observed through columns/rows/values only; get_cycle_vector, is_good, index maps and projections are the C12/C13/C16 models. Coherence is read at selection time (a metric overwritten after a pick is not reported as stale).')
 CLAIMED['C18'] = dict(
-    technique='Coq proof over a Gallina model of SiftConfig (option tree, slash paths, YAML routes with dump/load as contract oracles) + defaults table REGENERATED from emd/sift.py on every run by a fail-closed ast translator and re-proved by computation + differential correspondence of random edit histories and both YAML routes + behavioural oracle',
+    technique='Coq proof over a Gallina model of SiftConfig (option tree, slash paths, YAML routes with dump/load as contract oracles) + defaults table REGENERATED from emd/sift.py on every run by a fail-closed ast translator and re-proved by computation + differential correspondence of random edit histories and both YAML routes + behavioural oracle + TRANSLATION TIE (Prop_Tie_Config.v): the bodies of eleven SiftConfig methods (item get/set/delete, key transform, both YAML routes, listify, get_func) are regenerated from the source on every run by a fail-closed ast translator and machine-checked refinement theorems show the hand model computes exactly what the translated program computes for every oracle behaviour',
     text='Theorems (Prop_C18.v) prove for all option trees, paths and values that slash-separated key paths read, write and delete exactly the entries '
          'nested indexing does (split/join inverse, depth beyond three levels rejected by all three methods), that a write or delete changes exactly its '
          'own entry and nothing else, that exporting keeps keys and values up to tuple/array -> list, and that both YAML routes (file, text/stream) give '
